@@ -313,6 +313,9 @@ func compareCase(e *Env, c *Case, key, broken string) (im Outcome, mo Outcome, o
 			e.Rep.Hit("primed")
 		}
 	}
+	if primeTick%5 == 0 {
+		otherEngineOverrides()
+	}
 	im = runImpl(c)
 	checkRetained(e, im.Out)
 	sentinelCheck(e)
@@ -455,7 +458,7 @@ func sentinelCheck(e *Env) {
 	if sentinel.eng == nil {
 		sentinel.eng = twig.New()
 		tpls := map[string]string{
-			"s_ops":   "{% if t && u %}A{% endif %}{% if f or t %}B{% endif %}{{ n >= 2 }}{{ n <= 2 }}{{ n != 2 }}{{ n == 3 }}{{ 'a' ~ 'b' }}{{ t and u }}{{ f or t }}{{ not f }}{{ 1 in xs }}{{ 5 not in xs }}{{ 'ab' starts with 'a' }}{{ 'ab' ends with 'b' }}{{ n is odd }}{{ n is not even }}{{ name|e }}{{ t ? 'y' : 'n' }}{{ xs|length > 1 && n < 9 }}",
+			"s_ops":   "{% if t && u %}A{% endif %}{% if f or t %}B{% endif %}{{ n >= 2 }}{{ n <= 2 }}{{ n != 2 }}{{ n == 3 }}{{ 'a' ~ 'b' }}{{ t and u }}{{ f or t }}{{ not f }}{{ 1 in xs }}{{ 5 not in xs }}{{ 'ab' starts with 'a' }}{{ 'ab' ends with 'b' }}{{ n is odd }}{{ n is not even }}{{ name|e }}{{ name|upper }}{{ name|lower|length }}{{ range(1, 3)|join(',') }}{{ xs|first }}{{ nosuch|default('d') }}{{ n is even }}{{ t ? 'y' : 'n' }}{{ xs|length > 1 && n < 9 }}",
 			"s_base":  "<{% block content %}base{% endblock %}|{% block main %}m{% endblock %}>",
 			"s_child": "{% extends 's_base' %}{% block content %}[{{ parent() }}]{% endblock %}",
 			"s_macro": "{% macro input(x, y = 2) %}I{{ x }}{{ y }}{% endmacro %}{% macro field(z) %}F{{ z }}{% endmacro %}{{ input(1) }}{{ _self.field(n) }}{% import 's_lib' as lib %}{{ lib.input('q') }}",
@@ -528,6 +531,29 @@ func rerenderRetained(e *Env, c *Case, im Outcome) {
 		engineRing = append(engineRing, retainedEngine{lastEngine, c, im})
 	}
 	lastEngine = nil
+}
+
+// otherEngineOverrides: an unrelated engine of the same process replaces built-in filters, functions and tests by its
+// own and sets globals; every engine has its own tables, so nothing of this may show on the engines under test.
+func otherEngineOverrides() {
+	guarded(func() (string, error) {
+		x := twig.New()
+		weird := func(v interface{}, a ...interface{}) (interface{}, error) { return "OVERRIDDEN", nil }
+		for _, n := range []string{"upper", "lower", "e", "escape", "raw", "trim", "default", "length", "join", "first", "last", "reverse", "keys", "merge", "abs", "slice", "sort", "split", "capitalize", "title", "nosuchfilter"} {
+			x.AddFilter(n, weird)
+		}
+		for _, n := range []string{"range", "max", "min", "length", "nosuchfn", "parent"} {
+			x.AddFunction(n, func(a ...interface{}) (interface{}, error) { return "OVERRIDDEN", nil })
+		}
+		for _, n := range []string{"even", "odd", "empty", "defined", "iterable", "nosuchtest"} {
+			x.AddTest(n, func(v interface{}, a ...interface{}) (bool, error) { return true, nil })
+		}
+		for _, n := range []string{"n", "name", "xs", "user", "t", "f", "a", "b", "g"} {
+			x.AddGlobal(n, "OTHER-ENGINE-GLOBAL")
+		}
+		x.RegisterString("t", "{{ v|upper|e }}{{ range(1, 2)|join }}{% if v is even %}x{% endif %}{{ n }}")
+		return x.Render("t", map[string]interface{}{"v": "<&>"})
+	})
 }
 
 func describeCase(c *Case) map[string]any {
